@@ -15,7 +15,12 @@ package main
 //     library that is used as a value somewhere and has an identical signature.
 //  3. In every reachable function (closures included) each write is examined: assignments (`=`, `op=`),
 //     `x++`, `delete(m, k)`, `copy(dst, …)`, in-place sorts (`sort.X(s)`, `slices.SortX(s)`) and the
-//     mutating methods of a `sync.Map`. The written location is walked down to its root identifier;
+//     mutating methods of a `sync.Map`, and `append(s, …)` / `slices.Insert|Delete|Compact…(s, …)` — an append
+//     to a slice that has SPARE CAPACITY stores the new elements in the backing array the slice shares with
+//     whoever else holds it (a document slice decoded by encoding/json with 3, 5-7, 9-15 … elements has
+//     cap > len): the elements of `s` count as (potentially) written. Exempt: `append(s[:n:n], …)` /
+//     `append(slices.Clip(s), …)` (cap == len: append must reallocate), class `appendClipped`.
+//     The written location is walked down to its root identifier;
 //     the walk records whether a pointer / map / slice is crossed (a write that never crosses one
 //     stays in the variable itself).
 //       - root is a package-level variable                         → row, root `global`
@@ -33,12 +38,18 @@ package main
 //                   an absent key); syncMapLoad – `Load` / `Range` (a READ whose value the caller uses: listed so
 //                   that "this cache is read but never filled" is an obligation on the table)
 //       mutex     – between `m.Lock()` and `m.Unlock()` (or after `m.Lock(); defer m.Unlock()`) of a
-//                   sync.Mutex / sync.RWMutex in the same function
+//                   sync.Mutex / sync.RWMutex in the same function: an UNCONDITIONAL store (last writer wins)
+//       mutexIfAbsent – the same, and the statement is `M[k] = v` in the "absent" branch of a comma-ok lookup of the
+//                   same element: `if p, ok := M[k]; ok { … } else { M[k] = v }` / `if _, ok := M[k]; !ok { M[k] = v }`
+//                   (load-or-publish: the first writer wins)
 //       once      – inside the function literal handed to (*sync.Once).Do
 //       nilGuardInit / nilGuardNoInit – the statement is `X = e` directly inside `if X == nil { … }`
 //                   for a package-level X whose declaration has / has not an initialiser
 //       nilGuardCtor / nilGuardField – `v := R.f; if v == nil { …; R.f = e }` (lazily created field) where a
 //                   constructor `New…` of the package does / does not call the enclosing method
+//       appendSpare – `append(s, …)` (or an in-place `slices` edit) on a slice reachable from shared state, not
+//                   under a mutex / once: a plain write whenever cap(s) > len(s)
+//       appendClipped – the same on `s[:n:n]` / `slices.Clip(s)`: no write
 //       none      – anything else
 //  5. Shapes the walk cannot read (a write through a type assertion, an index of a call result, a
 //     function value with no candidate callee …) become `unrecognised "<file:line>"` rows.
@@ -84,18 +95,30 @@ type swFunc struct {
 }
 
 func extractSharedWrites(repo string) (string, error) {
-	wd, err := os.Getwd()
+	x, err := loadSwx(repo)
 	if err != nil {
 		return "", err
+	}
+	x.reach()
+	x.scan()
+	return x.emit(), nil
+}
+
+// loadSwx type-checks the library's packages (module `replace`d onto the repository) and collects functions,
+// value uses, initialisers and the freshness fixpoint.
+func loadSwx(repo string) (*swx, error) {
+	wd, err := os.Getwd()
+	if err != nil {
+		return nil, err
 	}
 	// private go.mod whose replace directive points at the repository under test
 	modSrc, err := os.ReadFile(filepath.Join(wd, "go.mod"))
 	if err != nil {
-		return "", fmt.Errorf("must run in the kinverif module directory: %v", err)
+		return nil, fmt.Errorf("must run in the kinverif module directory: %v", err)
 	}
 	tmp, err := os.MkdirTemp("", "swx")
 	if err != nil {
-		return "", err
+		return nil, err
 	}
 	defer os.RemoveAll(tmp)
 	abs, _ := filepath.Abs(repo)
@@ -118,25 +141,26 @@ func extractSharedWrites(repo string) (string, error) {
 	}
 	pkgs, err := packages.Load(cfg, pats...)
 	if err != nil {
-		return "", err
+		return nil, err
 	}
 	x := &swx{repo: abs, funcs: map[*types.Func]*swFunc{}, byName: map[string][]*swFunc{}, pkgOf: map[*types.Package]*packages.Package{},
 		valueUsed: map[*types.Func]bool{}, declInit: map[*types.Var]bool{}, infos: map[*types.Func]*fnInfo{}}
 	for _, p := range pkgs {
 		if len(p.Errors) > 0 {
-			return "", fmt.Errorf("package %s: %v", p.PkgPath, p.Errors[0])
+			return nil, fmt.Errorf("package %s: %v", p.PkgPath, p.Errors[0])
 		}
 		x.pkgOf[p.Types] = p
 		x.fset = p.Fset
 	}
+	x.pkgList = pkgs
 	x.collect(pkgs)
 	x.freshFixpoint()
-	x.reach()
-	x.scan()
-	return x.emit(), nil
+	return x, nil
 }
 
 type swx struct {
+	extraRoots []string // further entry points (table ValidateWrites: document validation, router construction)
+	pkgList   []*packages.Package
 	repo      string
 	fset      *token.FileSet
 	funcs     map[*types.Func]*swFunc
@@ -393,7 +417,7 @@ func (x *swx) freshExpr(p *packages.Package, e ast.Expr, lf map[types.Object]boo
 			}
 		}
 		if f := calleeOf(p, e); f != nil {
-			if x.fresh[f] {
+			if x.fresh[f] || stdFresh(f) {
 				return true
 			}
 			// result is not a reference → nothing shared can be reached through it
@@ -407,6 +431,19 @@ func (x *swx) freshExpr(p *packages.Package, e ast.Expr, lf map[types.Object]boo
 			return true
 		}
 		return false
+	}
+	return false
+}
+
+// stdFresh: standard-library functions whose (slice / map) result shares no memory with their arguments.
+func stdFresh(f *types.Func) bool {
+	if f.Pkg() == nil {
+		return false
+	}
+	switch f.Pkg().Path() + "." + f.Name() {
+	case "slices.Clone", "maps.Clone", "slices.Collect", "slices.Sorted", "slices.Concat", "slices.Repeat",
+		"strings.Split", "strings.SplitN", "strings.Fields", "strings.FieldsFunc", "bytes.Clone":
+		return true
 	}
 	return false
 }
@@ -603,6 +640,9 @@ func (x *swx) findRoots() {
 		"openapi3filter.ValidateRequest": true, "openapi3filter.ValidateResponse": true,
 		"openapi3.(*Schema).VisitJSON": true,
 		"openapi3gen.NewSchemaRefForValue": true,
+	}
+	for _, r := range x.extraRoots {
+		want[r] = true
 	}
 	for obj := range x.funcs {
 		if want[funcName(obj)] {
@@ -821,7 +861,21 @@ func (x *swx) walkLHS(p *packages.Package, e ast.Expr) walk {
 			w.root = n
 			return w
 		case *ast.CallExpr:
+			// a conversion T(x) and append(x, …) alias x (append: unless it had to reallocate)
+			if tv, ok := info.Types[n.Fun]; ok && tv.IsType() && len(n.Args) == 1 {
+				e = n.Args[0]
+				continue
+			}
+			if id, ok := n.Fun.(*ast.Ident); ok && id.Name == "append" && len(n.Args) > 0 {
+				if _, isB := info.Uses[id].(*types.Builtin); isB {
+					e = n.Args[0]
+					continue
+				}
+			}
 			w.root = n
+			return w
+		case *ast.BasicLit, *ast.CompositeLit:
+			w.root = n // a literal: nothing shared behind it
 			return w
 		default:
 			w.unread = true
@@ -1390,16 +1444,27 @@ func (x *swx) scanFunc(fi *fnInfo) []swCand {
 			if !w.deref || !w.docField {
 				return
 			}
-			if f := calleeOf(p, r); f != nil && x.fresh[f] {
+			if x.freshExpr(p, r, fi.lf) {
 				return
 			}
 			origins = []swOrigin{{kind: "call"}}
+		default:
+			return // literal root
+		}
+		if forceSync == "appendSpare" && (underMutex(at.Pos()) || inOnce(at.Pos())) {
+			forceSync = "" // a synchronised append is an ordinary synchronised write
+		}
+		if strings.HasPrefix(forceSync, "append") {
+			row.target = x.text(at) // the whole call
 		}
 		if forceSync != "" {
 			row.sync = forceSync
 		} else if row.sync == "none" {
 			if underMutex(at.Pos()) {
 				row.sync = "mutex"
+				if x.storeIfAbsent(sf, lhs, at.Pos()) {
+					row.sync = "mutexIfAbsent"
+				}
 			} else if inOnce(at.Pos()) {
 				row.sync = "once"
 			}
@@ -1434,6 +1499,11 @@ func (x *swx) scanFunc(fi *fnInfo) []swCand {
 					switch id.Name {
 					case "delete", "copy", "clear":
 						record(n, elemOf(n.Args[0]), curStmt, "") // the container's elements are written
+					case "append":
+						// spare capacity: the appended elements land in the backing array of Args[0]
+						if len(n.Args) > 1 || n.Ellipsis.IsValid() {
+							x.recordAppend(p, n, n.Args[0], curStmt, record)
+						}
 					}
 				}
 				return true
@@ -1449,6 +1519,13 @@ func (x *swx) scanFunc(fi *fnInfo) []swCand {
 			switch f.Pkg().Path() {
 			case "sort", "slices":
 				nm := f.Name()
+				if f.Pkg().Path() == "slices" && len(n.Args) > 0 {
+					switch nm {
+					case "Insert", "Delete", "DeleteFunc", "Compact", "CompactFunc", "Replace", "Grow":
+						// edit the argument's backing array in place (Grow: only when it must not reallocate — same hazard)
+						x.recordAppend(p, n, n.Args[0], curStmt, record)
+					}
+				}
 				if (strings.HasPrefix(nm, "Sort") || nm == "Strings" || nm == "Ints" || nm == "Float64s" ||
 					nm == "Slice" || nm == "SliceStable" || nm == "Stable" || nm == "Reverse") && len(n.Args) > 0 {
 					arg := n.Args[0]
@@ -1492,6 +1569,63 @@ func (x *swx) scanFunc(fi *fnInfo) []swCand {
 	return cands
 }
 
+
+// storeIfAbsent: the write `M[k] = …` at pos sits in the absent-branch of a comma-ok lookup of M[k].
+func (x *swx) storeIfAbsent(sf *swFunc, lhs ast.Expr, pos token.Pos) bool {
+	ix, ok := ast.Unparen(lhs).(*ast.IndexExpr)
+	if !ok {
+		return false
+	}
+	want := x.text(ix)
+	found := false
+	ast.Inspect(sf.decl.Body, func(n ast.Node) bool {
+		ifs, ok := n.(*ast.IfStmt)
+		if !ok || ifs.Init == nil || found {
+			return true
+		}
+		as, ok := ifs.Init.(*ast.AssignStmt)
+		if !ok || len(as.Lhs) != 2 || len(as.Rhs) != 1 {
+			return true
+		}
+		rix, ok := ast.Unparen(as.Rhs[0]).(*ast.IndexExpr)
+		okVar, ok2 := as.Lhs[1].(*ast.Ident)
+		if !ok || !ok2 || x.text(rix) != want {
+			return true
+		}
+		in := func(b ast.Node) bool { return b != nil && b.Pos() <= pos && pos < b.End() }
+		switch c := ast.Unparen(ifs.Cond).(type) {
+		case *ast.Ident: // if p, ok := M[k]; ok { … } else { M[k] = v }
+			if c.Name == okVar.Name && ifs.Else != nil && in(ifs.Else) {
+				found = true
+			}
+		case *ast.UnaryExpr: // if _, ok := M[k]; !ok { M[k] = v }
+			if id, isId := ast.Unparen(c.X).(*ast.Ident); isId && c.Op == token.NOT && id.Name == okVar.Name && in(ifs.Body) {
+				found = true
+			}
+		}
+		return true
+	})
+	return found
+}
+
+// recordAppend: `append(s, …)`. With cap(s) == len(s) guaranteed by the expression itself (full slice expression whose
+// max equals its high bound, or slices.Clip) nothing is written; otherwise the elements of s are (potentially) written.
+func (x *swx) recordAppend(p *packages.Package, at ast.Node, s ast.Expr, stmt ast.Stmt, record func(ast.Node, ast.Expr, ast.Stmt, string)) {
+	s = ast.Unparen(s)
+	class := "appendSpare"
+	switch e := s.(type) {
+	case *ast.SliceExpr:
+		if e.Slice3 && e.High != nil && e.Max != nil && x.text(e.High) == x.text(e.Max) {
+			class = "appendClipped"
+		}
+	case *ast.CallExpr:
+		if f := calleeOf(p, e); f != nil && f.Pkg() != nil && f.Pkg().Path() == "slices" && f.Name() == "Clip" && len(e.Args) == 1 {
+			class = "appendClipped"
+			s = e.Args[0]
+		}
+	}
+	record(at, &ast.IndexExpr{X: s, Index: &ast.BasicLit{Kind: token.INT, Value: "0"}, Lbrack: s.End(), Rbrack: s.End()}, stmt, class)
+}
 
 // ---------------------------------------------------------------- output
 
